@@ -18,6 +18,7 @@
 import GoBT.Ord.Model
 import GoBT.Props.C02
 import GoBT.Props.C10
+import GoBT.Props.C20Insc
 namespace GoBT.C20
 open GoBT GoBT.Fee GoBT.Ord GoBT.Sighash
 
@@ -300,6 +301,15 @@ theorem bid_ordinal_goes_to_buyer (bid : Nat) (ordTxid : Bytes) (ordVout : Nat) 
   have e2 : ¬ u0.sats - (u0.sats - bid) < bid := by omega
   have e3 : u0.sats - (u0.sats - bid) - bid < 1 := by omega
   simp [e1, e2, e3]
+
+/-- **Inscription round trip** (proved in GoBT/Props/C20Insc.lean): for every 20-byte key hash, content type and
+    payload below 2^32 bytes — the empty ones included — the script Tx.Inscribe builds on the P2PKH prefix parses
+    back to exactly that prefix, content type and payload. -/
+theorem inscribe_parse_round_trip (h ct data : Bytes) (hh : h.length = 20) (hct : ct.length < 2 ^ 32)
+    (hd : data.length < 2 ^ 32) :
+    ∃ s, inscriptionScript (p2pkh h) ct data = some s ∧
+      Script.parseInscription s = some (.ok (p2pkh h) ct data) :=
+  inscription_round_trip h ct data hh hct hd
 
 /-! ### non-vacuity: a concrete listing and acceptance -/
 def sampleOrd : UTXO := { txid := List.replicate 32 7, vout := 0, script := some [0x51], sats := 1 }
